@@ -51,6 +51,29 @@ MUTATIONS = [
      'density[ixp1, iyp1, izp1] += wxp1 * wyp1 * wzp1 * W', 'density[ixp1, iyp1, izp1] += wxp1 * wyp1 * wzp1'),
     ('c06-anisotropic-hy', 'C06', 'abacusnbody/analysis/tsc.py', 'inv_hy = ftype(gy / boxsize)', 'inv_hy = ftype(gx / boxsize)'),
     ('c06-rightwrap-if', 'C06', 'abacusnbody/analysis/tsc.py', '    while x >= L:\n        x -= L', '    if x >= L:\n        x -= L'),
+    # ---- C08
+    ('c08-shared-accumulator', 'C08', 'abacusnbody/analysis/power_spectrum.py',
+     '        tid = numba.get_thread_id()\n        i2 = i**2 if i < (n1d + 1) // 2 else (i - n1d) ** 2\n        for j in range(n1d):\n            bk, bmu = 0, 0',
+     '        tid = 0\n        i2 = i**2 if i < (n1d + 1) // 2 else (i - n1d) ** 2\n        for j in range(n1d):\n            bk, bmu = 0, 0'),
+    ('c08-nyquist-doubled', 'C08', 'abacusnbody/analysis/power_spectrum.py',
+     'single = k == 0 or 2 * k == n1d\n                counts[tid, bk, bmu]', 'single = k == 0\n                counts[tid, bk, bmu]'),
+    ('c08-first-edge-open', 'C08', 'abacusnbody/analysis/power_spectrum.py',
+     '                if kmag2 < kedges2[0]:\n                    continue\n\n                if kmag2 >= kedges2[-1]:\n                    break\n\n                while kmag2 > kedges2[bk + 1]:',
+     '                if kmag2 < kedges2[0]:\n                    continue\n\n                if kmag2 >= kedges2[-1]:\n                    continue\n\n                while kmag2 > kedges2[bk]:'),
+    ('c08-pole-weight', 'C08', 'abacusnbody/analysis/power_spectrum.py',
+     'pw = dtype(2 * pole + 1) * P_n(mu2, pole)', 'pw = dtype(2 * pole) * P_n(mu2, pole)'),
+    ('c08-kavg-units', 'C08', 'abacusnbody/analysis/power_spectrum.py',
+     'np.sqrt(kmag2) * dk if single else dtype(2.0) * np.sqrt(kmag2) * dk', 'np.sqrt(kmag2) * dk if single else np.sqrt(kmag2) * dk'),
+    ('c08-bin-state-not-reset', 'C08', 'abacusnbody/analysis/power_spectrum.py',
+     '        for j in range(n1d):\n            bk, bmu = 0, 0\n', '        bk, bmu = 0, 0\n        for j in range(n1d):\n'),
+    ('c08-kppi-break-again', 'C08', 'abacusnbody/analysis/power_spectrum.py',
+     '            if kmag2 >= kedges2[-1]:\n                continue\n\n            while kmag2 > kedges2[bk + 1]:',
+     '            if kmag2 >= kedges2[-1]:\n                break\n\n            while kmag2 > kedges2[bk + 1]:'),
+    ('c08-odd-fold', 'C08', 'abacusnbody/analysis/power_spectrum.py',
+     '            j2 = j**2 if j < (n1d + 1) // 2 else (j - n1d) ** 2\n            for k in range(kzlen):\n                kmag2 = dtype(i2 + j2 + k**2)\n                if kmag2 > 0:\n                    invkmag2 = kmag2**-1\n                    mu2 = dtype(k**2) * invkmag2\n                else:\n                    mu2 = dtype(0.0)  # matches nbodykit\n\n                if kmag2 < kedges2[0]:',
+     '            j2 = j**2 if j < n1d // 2 else (j - n1d) ** 2\n            for k in range(kzlen):\n                kmag2 = dtype(i2 + j2 + k**2)\n                if kmag2 > 0:\n                    invkmag2 = kmag2**-1\n                    mu2 = dtype(k**2) * invkmag2\n                else:\n                    mu2 = dtype(0.0)  # matches nbodykit\n\n                if kmag2 < kedges2[0]:'),
+    ('c08-legendre-coefficient', 'C08', 'abacusnbody/analysis/power_spectrum.py',
+     'sum *= dtype(0.5**n)', 'sum *= dtype(0.5 ** (n - 1))'),
     # ---- C17
     ('c17-shared-histogram', 'C17', 'abacusnbody/analysis/tsc.py',
      'counts[t, keys[i]] += 1', 'counts[0, keys[i]] += 1'),
